@@ -286,6 +286,8 @@ package lfs
 //@   modifies fresh, ghost lastexists
 //@   ensures result && size != 0 ==> fexists(objpath(oid))
 //@   ensures result == lastexists()
+//@   requires @inv c != nil
+//@   at call (*fs.Filesystem).ObjectExists:1 assert arg1__ == oid && arg2__ == size
 //@ func github.com/git-lfs/git-lfs/v3/tools.FileExistsOfSize
 //@   props C04 C09
 //@   modifies fresh
